@@ -31,7 +31,7 @@ def plan(tier, seed):
     k = 2 if tier == "quick" else 3
     for drv in ("h5", "ih5"):
         for first in range(len(HK.ACTIONS)):
-            parts.append(Part("vt.harness.cont", "seq", {"drv": drv, "k": k, "first": first, "init": first % 2}, 900 if tier == "quick" else 8000, 300,
+            parts.append(Part("vt.harness.cont", "seq", {"drv": drv, "k": k, "first": first, "init": first % 2, "c09": 1}, 900 if tier == "quick" else 8000, 300,
                               "container level: same steps succeed/fail and leave the same data, metadata objects and query results on both drivers (common reference model), incl. patch boundaries and reopen points"))
     return parts + protocol_parts(tier)
 
